@@ -12,7 +12,7 @@ import (
 
 func init() {
 	Registry["C07"] = &Rule{
-		Explanation: "Decides that every path which makes chunks or a root durable passes the reference check, and that a failed check discards the pending writes: (1) tableSet.append persists a memtable only after the checker returned nil and reported no absent address, over pending refs that were filled from every registered child-address thunk; (2) a chunk enters a memtable only together with its child-address thunk; (3) updateManifest writes the manifest only after the dangling-root check, and every error exit after append/errorIfDangling passes handlePossibleDanglingRefError, which drops the memtable on ErrDanglingRef; errorIfDangling succeeds only if the checker reported nothing absent; (4) addTableFilesToManifest adds files only after refCheckAllSources returned nil, or for a store with an empty root; refCheckAllSources fails when any chunk has a missing reference; (5) the entry points that add table files without a reference check are exactly the frozen administrative ones. Does not decide the correctness of the address walker (C09) or of hasMany (C01).",
+		Explanation: "Decides that every path which makes chunks or a root durable passes the reference check, and that a failed check discards the pending writes: (1) tableSet.append persists a memtable only after the checker returned nil and reported no absent address, over pending refs that were filled from every registered child-address thunk; (2) a chunk enters a memtable only together with its child-address thunk; (3) updateManifest writes the manifest only after the dangling-root check, and every error exit after append/errorIfDangling passes handlePossibleDanglingRefError, which drops the memtable on ErrDanglingRef; errorIfDangling succeeds only if the checker reported nothing absent; (4) addTableFilesToManifest adds files only after refCheckAllSources returned nil, or for a store with an empty root; refCheckAllSources fails when any chunk has a missing reference; (4b) the error of a chunk's child-address walk is tested wherever the walk feeds a reference check, and the check runs only on its nil edge; (5) the entry points that add table files without a reference check are exactly the frozen administrative ones. Does not decide the correctness of the address walker (C09) or of hasMany (C01).",
 		RuleText:    "CFG cut-reachability with error-checked edges; must-call on success paths; who-may-call allowlist; data-derivation of the checked records",
 		Assumptions: []string{"the refCheck function handed in by ValueStore reports absent addresses faithfully"},
 		Patterns:    []string{"./store/nbs", "./libraries/utils/errors"},
